@@ -1,6 +1,7 @@
 package refsmtp
 
 import (
+	"fmt"
 	"net"
 	"sync"
 	"time"
@@ -18,7 +19,12 @@ type TCPListener struct {
 
 // ListenTCP listens on host:0 and serves every accepted connection.
 func ListenTCP(host string, srv *Server, implicitTLS bool) (*TCPListener, error) {
-	l, err := net.Listen("tcp", net.JoinHostPort(host, "0"))
+	return ListenTCPPort(host, 0, srv, implicitTLS)
+}
+
+// ListenTCPPort listens on a given port (0 = any).
+func ListenTCPPort(host string, port int, srv *Server, implicitTLS bool) (*TCPListener, error) {
+	l, err := net.Listen("tcp", net.JoinHostPort(host, fmt.Sprint(port)))
 	if err != nil {
 		return nil, err
 	}
